@@ -28,6 +28,19 @@ func init() {
 
 var jsUniverse = []string{"a0", "a1", "a2", "a3", "a4", "a5"}
 
+// jsGlobalNames are names an argument may have that the global object of a runtime already knows:
+// own properties (built-ins) and inherited ones.
+var jsGlobalNames = []string{"Math", "toString", "valueOf", "hasOwnProperty", "constructor", "escape", "Number", "Math"}
+
+func isJSGlobalName(n string) bool {
+	for _, g := range jsGlobalNames {
+		if g == n {
+			return true
+		}
+	}
+	return false
+}
+
 type jsCall struct {
 	ctx     bool   // JavaScriptWithContext with a node
 	kind    string // echo, concat, sum, arr, obj, probe, node, nan, inf, null, undef, throw, syntax, oddargs
@@ -56,7 +69,7 @@ func drawCalls(t *tape.Tape, family string) []jsCall {
 		c := jsCall{}
 		c.ctx = t.Weighted("js.ctx", 3, 2) == 1
 		kinds := []string{"echo", "concat", "sum", "arr", "obj", "probe", "probe", "probe", "node", "nan", "inf", "null", "undef", "throw", "syntax", "oddargs",
-			"throwstr", "posinf", "nested", "objnull", "arrnull", "booleq", "echo", "mathfloor", "neginf2", "getter"}
+			"throwstr", "posinf", "nested", "objnull", "arrnull", "booleq", "echo", "mathfloor", "neginf2", "getter", "globals", "globals"}
 		c.kind = kinds[t.Intn("js.kind", len(kinds))]
 		if c.kind == "node" {
 			c.ctx = true
@@ -71,8 +84,9 @@ func drawCalls(t *tape.Tape, family string) []jsCall {
 		}
 		perm := append([]string{}, jsUniverse...)
 		if t.Chance("js.builtin-name", 1, 12) {
-			// an argument named like a JavaScript built-in (legal: it shadows the built-in for this call)
-			perm[0] = "Math"
+			// an argument named like a JavaScript built-in, or like something the global object inherits
+			// (legal: it shadows it for this call)
+			perm[0] = jsGlobalNames[t.Intn("js.builtin-name.which", len(jsGlobalNames))]
 			if n < 1 {
 				n = 1
 			}
@@ -82,11 +96,11 @@ func drawCalls(t *tape.Tape, family string) []jsCall {
 			perm[i], perm[j] = perm[j], perm[i]
 		}
 		c.names = perm[:n]
-		if c.kind == "mathfloor" || c.kind == "neginf2" {
-			// these scripts use the built-in Math themselves: no argument of THIS call may shadow it
+		if c.kind == "mathfloor" || c.kind == "neginf2" || c.kind == "globals" {
+			// these scripts use built-ins themselves: no argument of THIS call may shadow one
 			var keep []string
 			for _, nm := range c.names {
-				if nm != "Math" {
+				if !isJSGlobalName(nm) {
 					keep = append(keep, nm)
 				}
 			}
@@ -163,6 +177,9 @@ func (c jsCall) script() string {
 		return "({get x() { throw new Error('getter boom') }})"
 	case "neginf2":
 		return "Math.log(0)"
+	case "globals":
+		// what every runtime has, own or inherited, must be there for every call
+		return "[typeof Math, typeof toString, typeof valueOf, typeof hasOwnProperty, typeof constructor, escape('é'), Number('7'), toString.call([])].join(',')"
 	case "syntax":
 		return "var;"
 	case "oddargs":
@@ -236,6 +253,8 @@ func (c jsCall) expected(nodeJSON string) (val interface{}, isErr bool) {
 		return true, false
 	case "mathfloor":
 		return int64(7), false
+	case "globals":
+		return "object,function,function,function,function,%E9,7,[object Array]", false
 	case "probe":
 		names := append([]string{}, c.names...)
 		sort.Strings(names)
@@ -316,7 +335,7 @@ func (t *jsTask) runAll(yield func()) {
 		func() {
 			defer func() {
 				if r := recover(); r != nil {
-					panicked = fmt.Sprint(r)
+					panicked = run.SafeSprint(r)
 				}
 			}()
 			if c.ctx {
